@@ -22,7 +22,7 @@ impl C16 {
     }
 }
 
-const KINDS: [&str; 12] = ["Dual", "Dual2", "Cal", "UnionCal", "NamedCal", "CalType", "FXRates", "Curve", "PPSplineF64", "PPSplineDual", "PPSplineDual2", "Number"];
+const KINDS: [&str; 13] = ["Dual", "Dual2", "Cal", "UnionCal", "NamedCal", "CalType", "FXRates", "Curve", "PPSplineF64", "PPSplineDual", "PPSplineDual2", "Number", "CurveDF"];
 
 fn bits(a: f64, b: f64) -> bool {
     a.to_bits() == b.to_bits()
@@ -281,7 +281,7 @@ impl Prop for C16 {
         ]
     }
     fn run_case(&mut self, ctx: &mut Ctx, _phase: usize, idx: u64, rng: &mut Rng) {
-        let kind = KINDS[(idx % 12) as usize];
+        let kind = KINDS[(idx % 13) as usize];
         ctx.class(&format!("kind:{}", kind));
         ctx.crumb(&format!("round trip {}", kind));
         let res = guarded(|| run_kind(ctx_proxy(), kind, rng));
@@ -520,6 +520,61 @@ fn run_kind(_: (), kind: &str, r: &mut Rng) -> Outcome {
                 Ok(())
             })();
             (2, cls, out, d)
+        }
+        "CurveDF" => {
+            // the generic core curve type through its own JSON impl and bincode
+            use rateslib::calendars::{Convention, Modifier};
+            use rateslib::curves::{CurveDF, FlatBackwardInterpolator, FlatForwardInterpolator, LinearInterpolator, LinearZeroRateInterpolator, LogLinearInterpolator, Nodes};
+            let rule = super::curvegen::RULES[r.usize(5)];
+            let spec = super::curvegen::gen_curve(r, rule, 6);
+            let kindn = r.usize(3);
+            let nodes = match kindn {
+                0 => Nodes::F64(spec.supply.iter().map(|i| (super::curvegen::ts_to_ndt(spec.ts[*i]), if r.bool() { spec.vals[*i] } else { hostile_f64(r).abs().max(1e-300) })).collect()),
+                1 => Nodes::Dual(spec.supply.iter().map(|i| (super::curvegen::ts_to_ndt(spec.ts[*i]), Dual::try_new(spec.vals[*i], vec![format!("n{}", i)], vec![hostile_f64(r)]).unwrap())).collect()),
+                _ => Nodes::Dual2(spec.supply.iter().map(|i| (super::curvegen::ts_to_ndt(spec.ts[*i]), Dual2::try_new(spec.vals[*i], vec![format!("n{}", i)], vec![hostile_f64(r)], vec![hostile_f64(r)]).unwrap())).collect()),
+            };
+            let ib = if r.bool() { Some(hostile_f64(r)) } else { None };
+            let d = json!({"curve": spec.describe(), "node_kind": kindn, "index_base": ib.map(|x| format!("{:e}", x))});
+            let qs: Vec<chrono::NaiveDateTime> = super::curvegen::queries(&spec, r).iter().take(16).map(|(t, _)| super::curvegen::ts_to_ndt(*t)).collect();
+            macro_rules! go {
+                ($interp:expr, $cal:expr) => {{
+                    let o = CurveDF::try_new(nodes.clone(), $interp, &hostile_name(r, 1), Convention::Act365F, Modifier::ModF, ib, $cal).ok().expect("CurveDF::try_new");
+                    let out = (|| {
+                        let (j, b, js) = match paths(&o) {
+                            Ok(x) => x,
+                            Err(e) => return fail("serde", "error", json!({"object": d, "error": e})),
+                        };
+                        for (path, l) in [("json", &j), ("bincode", &b)] {
+                            if !(*l == o) {
+                                return fail(path, "not-equal", json!({"object": d, "json": crate::util::clip(&js, 500)}));
+                            }
+                            if l.ad() != o.ad() {
+                                return fail(path, "ad-order", json!({"object": d}));
+                            }
+                            for q in qs.iter() {
+                                if !number_identical(&l.interpolated_value(q), &o.interpolated_value(q)) {
+                                    return fail(path, "value-differs", json!({"object": d, "query": q.to_string()}));
+                                }
+                            }
+                        }
+                        Ok(())
+                    })();
+                    (4 + 2 * qs.len() as u64, cls, out, d)
+                }};
+            }
+            let named = r.bool();
+            match (rule, named) {
+                ("linear", true) => go!(LinearInterpolator::new(), gen_named(r)),
+                ("linear", false) => go!(LinearInterpolator::new(), gen_cal(r)),
+                ("log_linear", true) => go!(LogLinearInterpolator::new(), gen_named(r)),
+                ("log_linear", false) => go!(LogLinearInterpolator::new(), gen_cal(r)),
+                ("linear_zero_rate", true) => go!(LinearZeroRateInterpolator::new(), gen_named(r)),
+                ("linear_zero_rate", false) => go!(LinearZeroRateInterpolator::new(), gen_cal(r)),
+                ("flat_forward", true) => go!(FlatForwardInterpolator::new(), gen_named(r)),
+                ("flat_forward", false) => go!(FlatForwardInterpolator::new(), gen_cal(r)),
+                (_, true) => go!(FlatBackwardInterpolator::new(), gen_named(r)),
+                (_, false) => go!(FlatBackwardInterpolator::new(), gen_cal(r)),
+            }
         }
         "FXRates" => {
             let (o, m, order) = gen_fxrates(r);
